@@ -569,6 +569,12 @@ def run(run):
     langmatch(run, fx)
     indextests(run, fx)
     tagnorm.check(run, fx, 'TAGNORM')
+    if not run.cfg_tag:
+        run.cfg_tag = 'traceapi'         # the same with tracing compiled in, for the units that take tags (shared with C20)
+        try:
+            tagnorm.check(run, run.facts('traceapi'), 'TAGNORM')
+        finally:
+            run.cfg_tag = ''
     from . import vecmodel
     vecmodel.check(run, fx, 'FAILATOMIC')     # applyValToFeature grows the value vector with resize(): the words it appends must be zero, the others untouched
     from . import c11
